@@ -245,13 +245,21 @@ def reOfTable (spanKinds : List Nat) (tbl : List LineTbl) : Re where
       | none => none
     | _, _ => none
 
+/-- a match ends inside its line -/
+def entryIn (n : Nat) : Option Match → Bool
+  | none => true
+  | some m => m.stop ≤ n
+
 /-- the table has exactly the shape of the text (checked by the driver before `reOfTable` is used,
-so that a missing entry can never be read as "no match") -/
+so that a missing entry can never be read as "no match") and every match ends inside its line (the
+hypothesis `ReIn` of the theorems, checked on every request) -/
 def tableOk (spanKinds : List Nat) : List (List Char) → List LineTbl → Bool
   | [], [] => true
   | l :: ls, r :: rs =>
     r.norm.length == l.length && r.bodies.length == spanKinds.length &&
-    r.bodies.all (fun row => row.length == l.length) && tableOk spanKinds ls rs
+    r.bodies.all (fun row => row.length == l.length) &&
+    r.norm.all (entryIn l.length) && r.bodies.all (fun row => row.all (entryIn l.length)) &&
+    tableOk spanKinds ls rs
   | _, _ => false
 
 /-! ## get_orig_text -/
